@@ -1,4 +1,5 @@
 import MioModel.Lemmas.Decoder
+import MioModel.WsHandshake
 import MioModel.Lemmas.Net
 import MioModel.Props.C03
 /-! # C17 — A misbehaving peer cannot crash, wedge or confuse the node (decoder part)
@@ -181,5 +182,51 @@ theorem process_frame (s s' : St) (a : Act) (id : Nat) (hp : procHolds s.proc = 
 theorem failed_handshake_isolated (s : St) (h : Net.Reachable s) (r : Reg) (hr : r ∈ s.regs)
     (hacc : r.listener ≠ none) (hnr : r.ready = false) : proj r.id s.log = [] :=
   C03.failed_inbound_silent s h r hr hacc hnr
+
+/-! ## The WebSocket handshake state machine (M2w)
+
+A hostile or broken peer decides what each handshake step answers.  Whatever it answers, `pending()`
+puts a proper state back (never the moved-from placeholder), does not panic while the handshake is in
+progress, reports `Ready` exactly when the connection became a WebSocket, and after `Disconnected` the
+driver never calls into the resource again (`failed_handshake_isolated` and M5: the resource is
+deregistered in the same step), so the `unreachable!()` arms stay unreachable. -/
+
+/-- no step of a handshake in progress panics, for every legal answer -/
+theorem ws_pending_total (p : Mio.WsHs.Phase) (a : Mio.WsHs.HsAns) (hl : Mio.WsHs.LegalAns p a) :
+    (Mio.WsHs.pending (.handshake (some p)) a).isSome = true := by
+  cases p <;> cases a <;> simp [Mio.WsHs.pending, Mio.WsHs.LegalAns] at hl ⊢
+
+/-- the state put back is never the placeholder `Handshake(None)` -/
+theorem ws_pending_restores_state (s s' : Mio.WsHs.St) (a : Mio.WsHs.HsAns) (st : Mio.WsHs.Pending)
+    (h : Mio.WsHs.pending s a = some (s', st)) : s' ≠ .handshake none := by
+  cases s with
+  | webSocket => simp [Mio.WsHs.pending] at h; obtain ⟨h1, _⟩ := h; subst h1; simp
+  | error => simp [Mio.WsHs.pending] at h
+  | handshake p =>
+    cases p with
+    | none => simp [Mio.WsHs.pending] at h
+    | some p =>
+      cases p <;> cases a <;> simp [Mio.WsHs.pending] at h <;>
+        (obtain ⟨h1, _⟩ := h; subst h1; simp)
+
+/-- `Ready` is answered exactly when the resource is an established WebSocket afterwards, so the
+`receive` / `send` that follow an `Accepted` / `Connected(true)` event never hit their `unreachable!()` -/
+theorem ws_ready_iff_websocket (p : Mio.WsHs.Phase) (a : Mio.WsHs.HsAns) (s' : Mio.WsHs.St) (st : Mio.WsHs.Pending)
+    (h : Mio.WsHs.pending (.handshake (some p)) a = some (s', st)) :
+    (st = .ready ↔ s' = .webSocket) ∧ (st = .ready → Mio.WsHs.usable s' = some ()) := by
+  cases p <;> cases a <;> simp [Mio.WsHs.pending] at h <;>
+    (obtain ⟨h1, h2⟩ := h; subst h1; subst h2; simp [Mio.WsHs.usable])
+
+/-- a failed handshake answers `Disconnected` (the driver then forgets the resource) and an interrupted
+one stays in a handshake phase of its own side: client phases never become server phases -/
+theorem ws_failure_disconnects (p : Mio.WsHs.Phase) :
+    Mio.WsHs.pending (.handshake (some p)) .failure = some (.error, .disconnected) := by
+  cases p <;> rfl
+
+theorem ws_incomplete_keeps_side (p : Mio.WsHs.Phase) (a : Mio.WsHs.HsAns) (s' : Mio.WsHs.St)
+    (h : Mio.WsHs.pending (.handshake (some p)) a = some (s', .incomplete)) :
+    ((p = .connect ∨ p = .client) → s' = .handshake (some .connect) ∨ s' = .handshake (some .client)) ∧
+    ((p = .accept ∨ p = .server) → s' = .handshake (some .server)) := by
+  cases p <;> cases a <;> simp [Mio.WsHs.pending] at h <;> (subst h; simp)
 
 end Mio.C17
